@@ -219,6 +219,10 @@ impl Replayer {
                     if src != s(e, "src") {
                         viol!(self, ["C01", "C08"], "tree-src", "{party}: {what} leaf at node {x} has source {src}, expected {}", s(e, "src"));
                     }
+                    // the leaf's signature key changes exactly when the specification's key version (cv) does
+                    if let Err(m) = self.w.keys.bind(&format!("sig-{}-{}", s(e, "who"), u(e, "cv")), l.signing_identity.signature_key.as_bytes()) {
+                        viol!(self, ["C01", "C08"], "tree-sigkey", "{party}: {what} leaf at node {x}: {m}");
+                    }
                     if let Err(m) = self.w.keys.bind(s(e, "k"), l.public_key.as_ref()) {
                         viol!(self, ["C01", "C09"], "tree-key", "{party}: {what} node {x}: {m}");
                     }
@@ -399,7 +403,7 @@ impl Replayer {
                     // every third update also changes the member's signing key (same identity): the receivers'
                     // identity provider accepts it as a valid successor, and the proposer switches signer only when
                     // a commit carrying the update is accepted (F4)
-                    "upd" if u(&args, "prop") % 3 == 0 => {
+                    "upd" if self.new_identity_commits && u(&args, "prop") % 3 == 0 => {
                         let (sk, pk) = probe_new_sig.clone().expect("new signature key");
                         let id = mls_rs::identity::SigningIdentity::new(mls_rs::identity::basic::BasicCredential::new(p.as_bytes().to_vec()).into_credential(), pk);
                         g.propose_update_with_identity(sk, id, pad.clone())
